@@ -11,7 +11,7 @@ import (
 )
 
 func init() {
-	register("C14", c14Chunk, func(e *Env) { serveLoop(e, "C14") }, c14SkipErrors, c14Bound, c14Prefetch, c14Drain)
+	register("C14", c14Chunk, func(e *Env) { serveLoop(e, "C14") }, c14SkipErrors, c14Bound, c14Prefetch, c14Drain, c14EOF)
 }
 
 const pkgUtils = Mod + "/pkg/common/utils"
